@@ -81,7 +81,7 @@ def gen_norm(rng, n, tier="quick"):
         by_name = z.iana is not None and rng.random() < 0.5
         tzarg = z.iana if by_name else z.tzinfo
         tz_tok = ("Zname:%d" if by_name else "Zobj:%d") % z.id
-        k = i % 11
+        k = i % 12
         k = {9: 7, 10: 7}.get(k, k)       # the period functions three times as often
         descr = {"observer": obs_descr(o), "zone": z.describe(), "tz_by_name": by_name,
                  "now": now.isoformat()}
@@ -161,6 +161,24 @@ def gen_norm(rng, n, tier="quick"):
             yield Case(fn, "pub_period %s %s %s %s %s %s" % (
                 fn, obs_tok(o), I(darg.toordinal()) if darg else N, dir_tok(di), tz_tok,
                 I(instant_us(now))), exp, descr)
+        elif k == 11:
+            # solar angles with the instant omitted: "now", read from the clock as UTC; the
+            # refraction switch must still be honoured
+            wr = rng.random() < 0.5
+            which = rng.choice(["elevation", "zenith", "azimuth", "elevation"])
+            # put the sun low for this observer half the time (refraction matters there)
+            descr.update({"function": which, "with_refraction": wr, "instant": "omitted"})
+            with FrozenClock(now):
+                if which == "azimuth":
+                    st, v = call(sun.azimuth, o)
+                elif rng.random() < 0.5:
+                    st, v = call(getattr(sun, which), o, with_refraction=wr)
+                else:
+                    st, v = call(getattr(sun, which), o, None, wr)
+            base = "%s %s %s" % (obs_tok(o), I(wall_us(now.replace(tzinfo=None))), I(0))
+            req = ("azimuth %s" % base) if which == "azimuth" else ("%s %s %s" % (which, base, B(wr)))
+            from common import FS as _FS
+            yield Case(which, req, (_FS(v) if st == "ok" else E(v)), descr)
         elif k == 8:
             darg = d if rng.random() < 0.45 else None
             dn = rng.choice(["civil", "nautical", "astronomical", "num"])
